@@ -307,7 +307,7 @@ func (vm *VisitorModel) countUsedOnlyAsPresence(hs []*handlerInfo, tok string) b
 
 func checkC07(r *Run) propMeta {
 	meta := propMeta{Level: "other",
-		Explanation: "Decides the structural clause of parser faithfulness: (R1) for every (visitor, grammar rule) pair that can be active — computed from the root visitor through every push, with push guards evaluated on every own-level derivation of Cypher.g4 — the rule is handled, rejected with an error, captured as text by a handled ancestor, or is a terminal-free pass-through; otherwise the construct is silently dropped or re-attributed and is reported at the frontier. Handled rules must observe each information terminal (a terminal not determined by the child-rule sequence), by count where the grammar makes the count significant. (R2) the Cypher emitter reads every non-payload field of every model type it handles. (R3) the range-literal token switch covers every terminal the grammar allows there. (R4) the emitter's float formatting stays inside the grammar's real-literal language: strconv.FormatFloat in the emitter uses the 'f' format, or an exponent format only if ExponentDecimalReal accepts the '+' that Go writes. NOT decided: value-level round-trip equality (escape decoding, numeric values), which needs execution.",
+		Explanation: "Decides the structural clause of parser faithfulness: (R1) for every (visitor, grammar rule) pair that can be active — computed from the root visitor through every push, with push guards evaluated on every own-level derivation of Cypher.g4 — the rule is handled, rejected with an error, captured as text by a handled ancestor, or is a terminal-free pass-through; otherwise the construct is silently dropped or re-attributed and is reported at the frontier. Handled rules must observe each information terminal (a terminal not determined by the child-rule sequence), by count where the grammar makes the count significant. (R2) the Cypher emitter reads every non-payload field of every model type it handles. (R3) the range-literal token switch covers every terminal the grammar allows there. (R4) the emitter's float formatting stays inside the grammar's real-literal language: strconv.FormatFloat in the emitter uses the 'f' format, or an exponent format only if ExponentDecimalReal accepts the '+' that Go writes. (R5) functions that read the text of terminal children tell them apart by token type (SP also matches comments). NOT decided: value-level round-trip equality (escape decoding, numeric values), which needs execution.",
 		Assumptions: []string{"ANTLR walker contract", "generated parser implements Cypher.g4 (rule-reference and named-token sets cross-checked on every run)", "derivations are unrolled to two repetitions"},
 		TrustedBase: []string{"go/types", "this analyser"}}
 	if err := r.Load("./..."); err != nil {
@@ -321,6 +321,7 @@ func checkC07(r *Run) propMeta {
 	checkEmitterCoverage(r, "C07-R2-emitter-field")
 	checkRangeLiteral(r, vm, g)
 	checkNumberLanguage(r, g)
+	checkTerminalsByType(r, vm)
 	r.Floor("C07-R1-pair", 150)
 	r.Floor("C07-R1-info-terminal", 10)
 	r.Floor("C07-R2-emitter-field", 60)
@@ -450,6 +451,62 @@ func checkRangeLiteral(r *Run, vm *VisitorModel, g *Grammar) {
 				r.Fail("C07-R3-range-literal", construct, h.Decl.Pos(), "terminal '%s' of oC_RangeLiteral has no case and the switch has no error-reporting default", l)
 			}
 		}
+		// '*N' and '*N..' have the same children and differ only in the '..' terminal: the first is an exact hop count,
+		// the second an open range. The model has only (StartIndex, EndIndex), so the handler must give EndIndex a value
+		// somewhere other than in the branch that is reached after '..' — otherwise both texts produce the same model.
+		{
+			info := vm.pkg.TypesInfo
+			outside, inside := 0, 0
+			var stack []ast.Node
+			ast.Inspect(h.Decl.Body, func(n ast.Node) bool {
+				if n == nil {
+					stack = stack[:len(stack)-1]
+					return true
+				}
+				stack = append(stack, n)
+				as, ok := n.(*ast.AssignStmt)
+				if !ok {
+					return true
+				}
+				for _, l := range as.Lhs {
+					sel, ok := ast.Unparen(l).(*ast.SelectorExpr)
+					if !ok || sel.Sel.Name != "EndIndex" {
+						continue
+					}
+					// nested in a case clause of a switch over a local int state variable?
+					inState := false
+					for i, anc := range stack {
+						cc, ok := anc.(*ast.CaseClause)
+						if !ok || i == 0 {
+							continue
+						}
+						if blk, ok := stack[i-1].(*ast.BlockStmt); ok && i >= 2 {
+							if sw, ok := stack[i-2].(*ast.SwitchStmt); ok && sw.Body == blk && sw.Tag != nil {
+								if id, ok := ast.Unparen(sw.Tag).(*ast.Ident); ok {
+									if b, ok := info.TypeOf(id).Underlying().(*types.Basic); ok && b.Info()&types.IsInteger != 0 && len(cc.List) > 0 {
+										inState = true
+									}
+								}
+							}
+						}
+					}
+					if inState {
+						inside++
+					} else {
+						outside++
+					}
+				}
+				return true
+			})
+			construct := v + ".EnterOC_RangeLiteral:exact-hops"
+			if inside+outside == 0 {
+				// the handler does not use the EndIndex field at all: nothing to judge here
+			} else if outside > 0 {
+				r.Pass("C07-R3-range-literal", construct, h.Decl.Pos(), "EndIndex is also set outside the after-'..' state: '*N' (exactly N) and '*N..' (N or more) get different models")
+			} else {
+				r.Fail("C07-R3-range-literal", construct, h.Decl.Pos(), "EndIndex is assigned only in the state reached after the '..' token: '-[*3]->' (exactly three hops) gets the model of '-[*3..]->' (three or more), is emitted as such and translated as such")
+			}
+		}
 		if hasDefaultErr {
 			r.Pass("C07-R3-range-literal", v+".EnterOC_RangeLiteral:default", h.Decl.Pos(), "unexpected tokens are reported")
 		} else {
@@ -560,4 +617,89 @@ func atoiSafe(s string) int {
 		n = n*10 + int(c-'0')
 	}
 	return n
+}
+
+// checkTerminalsByType (R5): the lexer's SP token matches white space AND comments, so the text of a terminal child is
+// not enough to tell an operator from a separator: `1 /* one */ + 2` has the terminal children [SP("/* one */ "), '+',
+// SP].  A function that walks a rule's children and takes the text of its terminal nodes must look at the token type
+// (GetTokenType) — filtering on "the trimmed text is not empty" lets a comment through as if it were an operator.
+func checkTerminalsByType(r *Run, vm *VisitorModel) {
+	const rule = "C07-R5-terminal-by-type"
+	info := vm.pkg.TypesInfo
+	n := 0
+	for _, f := range vm.pkg.Syntax {
+		for _, d := range f.Decls {
+			fd, ok := d.(*ast.FuncDecl)
+			if !ok || fd.Body == nil {
+				continue
+			}
+			assertsTerminal, takesText, byType := false, false, false
+			// only loops over the children are judged: a fixed child index (ctx.GetChild(0)) names a position the grammar fixes
+			var loops []ast.Node
+			ast.Inspect(fd.Body, func(x ast.Node) bool {
+				switch x.(type) {
+				case *ast.ForStmt, *ast.RangeStmt:
+					loops = append(loops, x)
+				}
+				return true
+			})
+			inLoop := func(pos token.Pos) bool {
+				for _, l := range loops {
+					if l.Pos() <= pos && pos <= l.End() {
+						return true
+					}
+				}
+				return false
+			}
+			ast.Inspect(fd.Body, func(x ast.Node) bool {
+				if x != nil && !inLoop(x.Pos()) {
+					if _, isCall := x.(*ast.CallExpr); !isCall {
+						return true
+					}
+					if c := x.(*ast.CallExpr); true {
+						if sel, ok := c.Fun.(*ast.SelectorExpr); !ok || sel.Sel.Name != "GetTokenType" {
+							return true
+						}
+					}
+				}
+				switch t := x.(type) {
+				case *ast.TypeAssertExpr:
+					if t.Type != nil && strings.HasPrefix(namedName(info.TypeOf(t.Type)), "TerminalNode") {
+						assertsTerminal = true
+					}
+				case *ast.CaseClause:
+					for _, e := range t.List {
+						if tv, ok := info.Types[e]; ok && tv.IsType() && strings.HasPrefix(namedName(tv.Type), "TerminalNode") {
+							assertsTerminal = true
+						}
+					}
+				case *ast.CallExpr:
+					if sel, ok := t.Fun.(*ast.SelectorExpr); ok {
+						switch sel.Sel.Name {
+						case "GetText":
+							if strings.HasPrefix(namedName(info.TypeOf(sel.X)), "TerminalNode") {
+								takesText = true
+							}
+						case "GetTokenType":
+							byType = true
+						}
+					}
+				}
+				return true
+			})
+			if !assertsTerminal || !takesText {
+				continue
+			}
+			n++
+			construct := funcDeclName(fd)
+			if byType {
+				r.Pass(rule, construct, fd.Pos(), "terminal children are told apart by token type")
+			} else {
+				r.Fail(rule, construct, fd.Pos(), "%s takes the text of terminal children without looking at their token type: an SP token that carries a comment is not blank, so `1 /* c */ + 2` yields the operator list [\"/* c */\", \"+\"] and the addition is lost", construct)
+			}
+		}
+	}
+	if n == 0 {
+		r.Undecide("C07-R5: no function that reads the text of terminal children found in the parser front end")
+	}
 }
